@@ -48,7 +48,7 @@ void case_impl(Ctx &c, int variant) {
     s.clear_tx();
   };
   int steps = 0, send_faults = 0, from_cb_cnt = 0;
-  int api_resets = 0, reinits = 0;
+  int api_resets = 0, reinits = 0; bool hist_stale = false;
   auto do_op = [&](uint32_t op) {
     s.clear_tx();
     if (op == 0) {        // set
@@ -61,7 +61,7 @@ void case_impl(Ctx &c, int variant) {
       std::vector<XF> exp;
       if (!active[ee]) {
         active[ee] = true; activations++;
-        if (depth) { mh.insert(mh.begin(), (uint32_t)s.emcy[ee].Code | (usr ? (uint32_t)u.Hist << 16 : 0)); if ((int)mh.size() > depth) { mh.resize(depth); wrapped = true; } }
+        if (depth) { mh.insert(mh.begin(), (uint32_t)s.emcy[ee].Code | (usr ? (uint32_t)u.Hist << 16 : 0)); if ((int)mh.size() > depth) { mh.resize(depth); wrapped = true; } hist_stale = false; }
         if (frames_ok()) { XF x; x.code = s.emcy[ee].Code; x.usr = usr; memcpy(x.m, u.Emcy, 5); exp.push_back(x); }
       }
       if (lost) exp.clear();
@@ -90,11 +90,11 @@ void case_impl(Ctx &c, int variant) {
       uint32_t code = cl.write(0x1003, 0, v, 1);
       VLOG(c, "SDO write 1003h:0 := %u -> %08X", v, code);
       if (depth == 0) CHECK(c, code == 0x06020000u, "history-absent", "write to the absent object 1003h answered %08X", code);
-      else if (v == 0) { CHECK(c, code == 0, "history-clear", "writing 0 to 1003h:0 was refused with %08X", code); mh.clear(); }
+      else if (v == 0) { CHECK(c, code == 0, "history-clear", "writing 0 to 1003h:0 was refused with %08X", code); mh.clear(); hist_stale = false; }
       else CHECK(c, code == 0x06090030u, "history-write-refused", "writing %u to 1003h:0 answered %08X, expected abort 06090030", v, code);
       s.clear_tx();
     } else if (op == 4) { // read the history through SDO
-      if (!(mode == 2 || mode == 3) || depth == 0) return;
+      if (!(mode == 2 || mode == 3) || depth == 0 || hist_stale) return;
       uint32_t v = 0; uint32_t code = cl.read(0x1003, 0, &v);
       CHECK(c, code == 0 && v == mh.size(), "history-count", "1003h:0 reads %u (abort %08X), expected %zu", v, code, mh.size());
       for (size_t i = 0; i < mh.size(); i++) { code = cl.read(0x1003, (uint8_t)(i + 1), &v); CHECK(c, code == 0 && v == mh[i], "history-newest-first", "1003h:%zu reads %08X (abort %08X), expected %08X (newest first)", i + 1, v, code, mh[i]); }
@@ -145,7 +145,10 @@ void case_impl(Ctx &c, int variant) {
     } else if (op == 10) { // the application restarts the stack without a power cycle: CONodeStop, its RAM objects 1001h / 1003h back to their defaults, CONodeInit on the
       // same memory, CONodeStart - no error is active afterwards, the register is 0, the count is 0, the history is empty
       s.api_begin(); CONodeStop(s.node); s.api_end("CONodeStop");
-      *reg1001 = 0; if (depth > 0) { *hist.num = 0; for (int i = 0; i < depth; i++) *hist.ent[i] = 0; }
+      // ... or only 1001h: what 1003h then shows is left over from the node's previous life until the first new activation or a clearing write of 0
+      bool keep_hist = depth > 0 && c.t.coin();
+      *reg1001 = 0; if (depth > 0 && !keep_hist) { *hist.num = 0; for (int i = 0; i < depth; i++) *hist.ent[i] = 0; }
+      if (keep_hist && !mh.empty()) { hist_stale = true; c.cls("history-object-left-as-it-was-across-the-second-initialisation"); }
       s.reinit(); s.clear_tx(); s.start(); mode = 2; VLOG(c, "CONodeStop, CONodeInit on the same memory, CONodeStart");
       for (auto &t : s.tx) CHECK(c, t.id == 0x700u + s.nodeid, "one-frame-per-transition", "restarting the node made it transmit %s", t.str().c_str());
       for (int e = 0; e < CO_EMCY_N; e++) active[e] = false; mh.clear();
